@@ -25,13 +25,14 @@ func TestC03RealNATS(t *testing.T) {
 	rapid.Check(t, func(rt *rapid.T) {
 		cycles := rapid.SliceOfN(rapid.SampledFrom([]string{"shutdown", "outage", "appclose"}), 1, 3).Draw(rt, "cycles")
 		inflight := rapid.Bool().Draw(rt, "inflight")
+		failFirst := rapid.Bool().Draw(rt, "failFirst")
 		workers := rapid.IntRange(1, 4).Draw(rt, "workers")
 		s := res.NewService("svc")
 		s.SetLogger(nil)
 		s.SetWorkerCount(workers)
 		s.Handle("m", res.Access(res.AccessGranted), res.GetModel(func(r res.ModelRequest) { r.Model(map[string]int{"a": 1}) }))
 		fail := func(format string, a ...interface{}) {
-			rt.Fatalf("cycles %v (in-flight callback: %v, %d workers): %s", cycles, inflight, workers, fmt.Sprintf(format, a...))
+			rt.Fatalf("cycles %v (in-flight callback: %v, %d workers, failed connection attempt before each: %v): %s", cycles, inflight, workers, failFirst, fmt.Sprintf(format, a...))
 		}
 		for ci, how := range cycles {
 			srv, err := natsrv.Start()
@@ -43,6 +44,13 @@ func TestC03RealNATS(t *testing.T) {
 				if !stopped {
 					stopped = true
 					srv.Stop()
+				}
+			}
+			if failFirst {
+				// no server there: ListenAndServe fails to connect, and the service stays servable
+				if err := s.ListenAndServe("nats://127.0.0.1:1", nats.Timeout(2*time.Second)); err == nil {
+					stopSrv()
+					fail("cycle %d: ListenAndServe to a port nobody listens on returned nil", ci)
 				}
 			}
 			started := make(chan struct{})
